@@ -15,7 +15,7 @@ import (
 func init() {
 	register(&PropSpec{
 		ID:       "C14",
-		Patterns: []string{"./pkg/proxy", "./pkg/streamfilter", "./pkg/types", "./pkg/filter/stream/..."},
+		Patterns: []string{"./pkg/proxy", "./pkg/streamfilter", "./pkg/types", "./pkg/filter/stream/...", "./pkg/filter/network/grpc"},
 		Explanation: "(R1) in the CFG of downStream.receive no path leads from a RunReceiverFilter call to an upstream-send site (a call from which ConnectionPool.NewStream / upstreamRequest.append* is reachable — computed, not listed) without passing a processError call whose `err != nil` edge returns; " +
 			"(R2) every hijack API (SendHijackReply, SendHijackReplyWithBody, SendDirectResponse) unconditionally raises downStream.directResponse and installs the reply headers; (R3) in processError the directResponse branch is reached only after the cleaned check, clears the retry state and leaves only towards the send-filter phase (or Oneway) with ErrExit unless already in it; " +
 			"(R4) phase constants order UpFilter < UpRecvHeader < UpRecvData < UpRecvTrailer, RunSenderFilter sits in the UpFilter case and the reply is written only in the UpRecv* cases; " +
